@@ -108,3 +108,54 @@ package pm
 //@ assert@"if len(matches) == limit || pat.MustHead" callfn(ncalls() - 1) == fnid("pm.recursiveVM") && callargInt(ncalls() - 1, 3) == sp0 && callargInt(ncalls() - 1, 2) == 0 && sp == ite(callresBool(ncalls() - 1, 0) && sp0 + 1 < callresInt(ncalls() - 1, 1), callresInt(ncalls() - 1, 1), sp0 + 1) && len(matches) == n0 + ite(callresBool(ncalls() - 1, 0), 1, 0) && (callresBool(ncalls() - 1, 0) ==> matches[n0] == ms)
 //@ modifies type MatchData.captures, elems(uint32), type scanner.*, type scannerState.*
 //@ loop 1 invariant 0 <= sp && len(insts) >= 1 && Inv_prog(insts) && pat != nil && offset(matches) == 0 && (arrid(matches) == 0 || fresh(matches))
+
+// ---------------------------------------------------------------------------
+// Pattern parser, character sets (C14). The scanner is a cursor over the pattern bytes; nxt(sc) is the character its next
+// Next() returns. Peek() returns that character and leaves it the next one. In a set [...] a range x-y starts ONLY from a
+// single unescaped character (Lua 5.1 matchbracketclass: the range test is not tried after an escape, and a '-' that follows
+// a class or a complete range is an ordinary member): the Begin of every rangeClass built is a *charClass - the only kind
+// rangeClass.Matches can compare (any other Begin makes the whole element match nothing).
+// ---------------------------------------------------------------------------
+//@ define Inv_sc(sc *scanner) bool = sc != nil && offset(sc.src) == 0 && (!sc.State.started ==> sc.State.Pos == 0) && (sc.State.Pos == EOS || (0 <= sc.State.Pos && (sc.State.Pos < len(sc.src) || (!sc.State.started && sc.State.Pos == 0))))
+//@ define nxt(sc *scanner) int = ite(!sc.State.started, ite(len(sc.src) == 0, EOS, sc.src[0]), ite(sc.State.Pos == EOS || sc.State.Pos >= len(sc.src) - 1, EOS, sc.src[sc.State.Pos + 1]))
+
+//@ func (*scanner).NextPos [C14]
+//@ requires Inv_sc(sc)
+//@ noraise
+//@ ensures  result == ite(sc.State.Pos == EOS || sc.State.Pos >= len(sc.src) - 1, EOS, ite(!sc.State.started, 0, sc.State.Pos + 1))
+//@ modifies nothing
+
+//@ func (*scanner).Next [C14]
+//@ requires Inv_sc(sc)
+//@ noraise
+//@ ensures  Inv_sc(sc) && result == old(nxt(sc)) && sc.State.started && (result == EOS <==> sc.State.Pos == EOS) && (result != EOS ==> 0 <= result && result <= 255)
+//@ ensures  "cursor": sc.State.Pos == old(ite(!sc.State.started, ite(len(sc.src) == 0, EOS, 0), ite(sc.State.Pos == EOS || sc.State.Pos >= len(sc.src) - 1, EOS, sc.State.Pos + 1)))
+//@ modifies sc.State
+
+//@ func (*scanner).Peek [C14]
+//@ requires Inv_sc(sc)
+//@ noraise
+//@ ensures  Inv_sc(sc) && result == old(nxt(sc)) && nxt(sc) == old(nxt(sc)) && (result != EOS ==> 0 <= result && result <= 255)
+//@ modifies sc.State
+
+//@ trusted newError [C14]
+//@ assume newError builds the error value of a malformed pattern
+//@ noraise
+//@ modifies nothing
+
+//@ func parseClass [C14]
+// a malformed pattern is reported by panic(newError(...)); the caller of compilePattern recovers it into a Lua error (C14: "bad patterns are errors")
+//@ may-panic type Error
+//@ requires Inv_sc(sc)
+//@ ensures  Inv_sc(sc) && result != nil && (old(nxt(sc)) != 37 && !allowset ==> hastype(result, "*charClass"))
+//@ raises when true
+//@ modifies sc.State
+
+//@ func parseClassSet [C14]
+//@ may-panic type Error
+//@ requires Inv_sc(sc)
+//@ assert@"set.Classes = append(set.Classes, &rangeClass{begin, end})" hastype(begin, "*charClass")
+//@ ensures  Inv_sc(sc) && result != nil
+//@ raises when true
+//@ modifies sc.State
+//@ loop 1 invariant Inv_sc(sc) && set != nil && fresh(set) && (arrid(set.Classes) == 0 || fresh(set.Classes)) && offset(set.Classes) == 0 && (canrange ==> !isrange) && (canrange || isrange ==> len(set.Classes) >= 1 && hastype(set.Classes[len(set.Classes) - 1], "*charClass"))
